@@ -13,15 +13,42 @@
    string-hash seed of the process and on the order of construction.
 
    Every place of the interpreter that enumerates a set or a map is a *site*.
-   A site enumerates either with EnumSorted (the sorted view the property
-   demands) or with EnumRaw (the host order `ord`); the table `tab`
-   (site -> "sorted" | "raw") says which.  The table is not written down from
-   belief: the harness derives it from observed executions. *)
+   A site enumerates either with a sorted view or with EnumRaw (the host order
+   `ord`); the table `tab` (site -> "sorted" | "raw") says which.  The sorted
+   view is a host sort of `ord` with the order relation of the values; the
+   entry tab["relation"] says whether that relation is the total order the
+   property needs ("total": the view is EnumSorted, a function of the content)
+   or the order of the renderings alone ("render": members that render alike
+   tie and stay in host order, so `ord` leaks through a sorting site).  The
+   table is not written down from belief: the harness derives it from
+   observed executions. *)
 EXTENDS Integers, Sequences, FiniteSets, SequencesExt, TLC
 
-ValOf(k) == 100 + ((k * 4) % 11)        \* distinct for k in 1..10, not monotone in k
+ValOf(k) == 100 + ((k * 4) % 11)        \* distinct for k in 1..10 (and in 56..63), not monotone in k
 
-Lt(a, b) == a < b
+(* Elements are small ints.  1..AlikeBase are elements with a rendering of
+   their own (strings, scalars): the int is the rank of the rendering.
+   AlikeBase+1 .. AlikeTop are elements that are pairwise different but all
+   *render alike*: anonymous functions (every one prints <#lambda>), objects
+   that differ only in hidden members or share a _str_, streams, and sets /
+   maps of such values.  Their int is what tells them apart without any
+   hashing: the creation number of a function or stream, the hidden member of
+   an object.  They render later than every plain element (a string's text
+   begins with a quote, theirs with `<`).
+
+   Two order relations live on the elements:
+   Lt      the order of the language: a strict TOTAL order, consistent with
+           equality (different elements are never "neither less").
+   LtKey   the order of the renderings alone: alike elements TIE.  A stable
+           host sort with this relation keeps tied elements in the order in
+           which it met them, i.e. in the internal order of the container.   *)
+AlikeBase == 55
+AlikeTop  == 99
+IsAlike(e) == e > AlikeBase /\ e <= AlikeTop
+Key(e)     == IF IsAlike(e) THEN AlikeBase + 1 ELSE e
+
+Lt(a, b)    == a < b
+LtKey(a, b) == Key(a) < Key(b)
 
 (* values flowing through a program: a collection or a sequence (uniform record) *)
 Coll(S, o) == [t |-> "coll", elems |-> S,  ord |-> o,    seq |-> << >>]
@@ -29,9 +56,21 @@ SeqV(q)    == [t |-> "seq",  elems |-> {}, ord |-> << >>, seq |-> q]
 
 Perms(S) == SetToSeqs(S)                \* every internal order a container of S can have
 
-(* ---- the two enumerations --------------------------------------------- *)
+(* ---- the enumerations -------------------------------------------------- *)
 EnumSorted(c) == SetToSortSeq(c.elems, Lt)
 EnumRaw(c)    == c.ord
+
+(* a stable sort by the rendering alone (what `sorted(host set)` is when the
+   order relation of the values is the order of their texts): every element is
+   put behind the elements met before it whose key is not greater *)
+InsertStable(q, e) ==
+  LET later == {i \in 1..Len(q) : Key(q[i]) > Key(e)} IN
+  IF later = {} THEN Append(q, e)
+  ELSE LET i == CHOOSE m \in later : \A k \in later : m <= k
+       IN  SubSeq(q, 1, i - 1) \o <<e>> \o SubSeq(q, i, Len(q))
+RECURSIVE StableByKey(_)
+StableByKey(q) == IF q = << >> THEN << >>
+                  ELSE InsertStable(StableByKey(SubSeq(q, 1, Len(q) - 1)), q[Len(q)])
 
 (* the enumeration sites of src/ckl (file: what the code does there) *)
 Sites == {
@@ -57,10 +96,17 @@ Sites == {
   "render.set",         \* values.py ValueSet.__repr__
   "render.map" }        \* values.py ValueMap.__repr__
 
-AllSorted == [s \in Sites |-> "sorted"]     \* what the property states
-AllRaw    == [s \in Sites |-> "raw"]
+(* The table: site -> "sorted" | "raw", plus one entry "relation" that says
+   with which relation the sorting sites (and sorted()) sort:
+   "total"  = Lt, "render" = LtKey with a stable sort. *)
+TabKeys   == Sites \cup {"relation"}
+AllSorted == [s \in TabKeys |-> IF s = "relation" THEN "total" ELSE "sorted"]   \* what the property states
+AllRaw    == [s \in TabKeys |-> IF s = "relation" THEN "total" ELSE "raw"]
+ByRender  == [s \in TabKeys |-> IF s = "relation" THEN "render" ELSE "sorted"]  \* every site sorts, by the text
 
-KeysAt(site, c, tab) == IF tab[site] = "sorted" THEN EnumSorted(c) ELSE EnumRaw(c)
+SortBy(tab, q) == IF tab["relation"] = "total" THEN SortSeq(q, Lt) ELSE StableByKey(q)
+
+KeysAt(site, c, tab) == IF tab[site] = "sorted" THEN SortBy(tab, c.ord) ELSE EnumRaw(c)
 
 ValsOf(q)  == [i \in 1..Len(q) |-> ValOf(q[i])]
 Entries(q) == [i \in 1..(2 * Len(q)) |->
@@ -75,7 +121,7 @@ Enum(site, proj, c, tab) ==
     [] proj = "keys"       -> q
     [] proj = "vals"       -> ValsOf(q)
     [] proj = "entries"    -> Entries(q)
-    [] proj = "sortedvals" -> IF tab[site] = "sorted" THEN SortSeq(ValsOf(q), Lt) ELSE ValsOf(q)
+    [] proj = "sortedvals" -> IF tab[site] = "sorted" THEN SortBy(tab, ValsOf(q)) ELSE ValsOf(q)
 
 (* ---- programs = pipelines of stages ------------------------------------ *)
 E(site, proj) == [k |-> "enum",  site |-> site, proj |-> proj, n |-> 0]
@@ -141,7 +187,7 @@ Apply(st, cur, tab, newOrd) ==
   CASE st.k = "enum"  -> SeqV(Enum(st.site, st.proj, cur, tab))
     [] st.k = "build" -> Coll(ToSet(cur.seq), newOrd)
     [] st.k = "take"  -> SeqV(SubSeq(cur.seq, 1, MinI(st.n, Len(cur.seq))))
-    [] st.k = "sort"  -> SeqV(SortSeq(cur.seq, Lt))
+    [] st.k = "sort"  -> SeqV(SortBy(tab, cur.seq))
     [] st.k = "sum"   -> SeqV(<<SumSeq(cur.seq)>>)
     [] st.k = "len"   -> SeqV(<<Len(cur.seq)>>)
 
